@@ -12,7 +12,7 @@
  *    the script use the canonical numbering strict=1 server=2 insanity=4 keepalive-hdr=8 head-only=16;
  *    after the object is built: `resp-obj rid=<r> rets=<call results> fa=<flags_auto, canonical:
  *    conn=1 close=2 te=4 cl=8 date=16> fl=<flags> ents=<H|F:name=value,…>` (MHD_get_response_headers);
- *  - `cfg nodate=1`: MHD_USE_SUPPRESS_DATE_NO_CLOCK;
+ *  - `cfg nodate=1`: MHD_USE_SUPPRESS_DATE_NO_CLOCK; `cfg pool=<n>`: MHD_OPTION_THREAD_POOL_SIZE (with a *-thr mode);
  *  - white-box state snapshot around MHD_queue_response (state, response pointer,
  *    read-buffer offset, discard flag) printed as `unchanged=<0|1>`;
  *
@@ -56,8 +56,8 @@ uint64_t MHD_monotonic_msec_counter (void) { return vclock_ms; }
 /* ---------------------------------------------------------------- config */
 static struct {
   char mode[16]; size_t mem, incr; int lvl; unsigned limit, perip, timeout;
-  int upgrade, suspend, have_lvl; unsigned nonce_tbl; int nodate;
-} cfg = { "select", 0, 0, 0, 0, 0, 0, 0, 0, 0, 0, 0 };
+  int upgrade, suspend, have_lvl; unsigned nonce_tbl; int nodate; unsigned pool;
+} cfg = { "select", 0, 0, 0, 0, 0, 0, 0, 0, 0, 0, 0, 0 };
 
 static struct MHD_Daemon *d;
 
@@ -584,6 +584,7 @@ static void start_daemon (void)
   if (cfg.limit) { ops[n].option = MHD_OPTION_CONNECTION_LIMIT; ops[n].value = cfg.limit; ops[n++].ptr_value = NULL; }
   if (cfg.perip) { ops[n].option = MHD_OPTION_PER_IP_CONNECTION_LIMIT; ops[n].value = cfg.perip; ops[n++].ptr_value = NULL; }
   if (cfg.timeout) { ops[n].option = MHD_OPTION_CONNECTION_TIMEOUT; ops[n].value = cfg.timeout; ops[n++].ptr_value = NULL; }
+  if (cfg.pool) { ops[n].option = MHD_OPTION_THREAD_POOL_SIZE; ops[n].value = cfg.pool; ops[n++].ptr_value = NULL; }
   if (cfg.nonce_tbl) { ops[n].option = MHD_OPTION_NONCE_NC_SIZE; ops[n].value = cfg.nonce_tbl; ops[n++].ptr_value = NULL; }
   ops[n].option = MHD_OPTION_NOTIFY_COMPLETED; ops[n].value = (intptr_t) &completed; ops[n++].ptr_value = NULL;
   ops[n].option = MHD_OPTION_NOTIFY_CONNECTION; ops[n].value = (intptr_t) &notify_conn; ops[n++].ptr_value = NULL;
@@ -640,6 +641,7 @@ int main (void)
         else if (kv (l.w[i], "timeout", &v)) cfg.timeout = (unsigned) atoi (v);
         else if (kv (l.w[i], "upgrade", &v)) cfg.upgrade = atoi (v);
         else if (kv (l.w[i], "nodate", &v)) cfg.nodate = atoi (v);
+        else if (kv (l.w[i], "pool", &v)) cfg.pool = (unsigned) atoi (v);
         else if (kv (l.w[i], "suspend", &v)) cfg.suspend = atoi (v);
         else if (kv (l.w[i], "nonce_tbl", &v)) cfg.nonce_tbl = (unsigned) atoi (v);
       }
@@ -729,7 +731,9 @@ int main (void)
     if (!strcmp (op, "resume") && l.n >= 2 && lp_u64 (l.w[1], &a) && a < MAXC && conns[a].mc)
     { conns[a].resume_in = -1; out ("resume c=%d", (int) a); MHD_resume_connection (conns[a].mc); continue; }
     if (!strcmp (op, "up-close") && l.n >= 2 && lp_u64 (l.w[1], &a) && a < MAXC && conns[a].upgraded)
-    { out ("up-close c=%d -> %d", (int) a, (int) MHD_upgrade_action (conns[a].urh, MHD_UPGRADE_ACTION_CLOSE)); conns[a].upgraded = 0; continue; }
+    { /* the daemon's threads may log the release before this thread logs the result: mark the start of the action */
+      out ("up-closing c=%d", (int) a);
+      out ("up-close c=%d -> %d", (int) a, (int) MHD_upgrade_action (conns[a].urh, MHD_UPGRADE_ACTION_CLOSE)); conns[a].upgraded = 0; continue; }
     if (!strcmp (op, "up-recv") && l.n >= 2 && lp_u64 (l.w[1], &a) && a < MAXC && conns[a].upgraded)
     { static uint8_t ub[65536]; ssize_t r; app_io++; r = recv (conns[a].usock, ub, sizeof(ub), MSG_DONTWAIT); app_io--;
       flockfile (stdout); printf ("up-data c=%d ", (int) a); if (r > 0) lp_puthex (stdout, ub, (size_t) r); else putchar ('-'); putchar ('\n'); funlockfile (stdout); continue; }
